@@ -319,7 +319,11 @@ def arcovar(x, order):
     # Here we use lstsq rathre than solve function because Xc is not square
     # matrix
 
-    a, _residues, _rank, _singular_values = scipy.linalg.lstsq(-Xc, X1)
+    # singular values below max(shape)*eps relative to the largest one are round-off
+    # of an exactly rank-deficient matrix (the usual rank tolerance): keeping them
+    # gives coefficients of size 1e14 and a wrong error
+    rcond = max(Xc.shape) * np.finfo(float).eps
+    a, _residues, _rank, _singular_values = scipy.linalg.lstsq(-Xc, X1, cond=rcond)
 
     # Estimate the input white noise variance
     Cz = np.dot(X1.conj().transpose(), Xc)
